@@ -4,14 +4,21 @@ Decides: the guards in front of the consumer callback (non-empty result, multipl
 registered); what the callback is handed (the search for this subscription's types/filter, in the requested order);
 bookkeeping of the two subscription structures; what unsubscribe removes; the validation decision table; the reactive
 trigger.  Does not decide cadence as timing, nor isolation between subscriptions over histories.
+
+Method: the functions involved are small and loop-free per subscription, so every rule is decided PATH BY PATH: a
+symbolic walk (`explore`) enumerates the paths of a statement block, substituting locals by the expressions they were
+bound to on that path; each path carries its branch conditions (compared as canonical atoms of sem.py, so the spelling
+of a test, the order of its operands, nesting of ifs and names of locals do not matter), the calls it makes (callees
+resolved by the program model, arguments bound to parameter names) and the stores it performs.
 """
 from __future__ import annotations
 
 import ast
-import re
+import copy
 
+from .. import sem
+from ..flow import FunctionFlow, cond_atoms
 from ..prog import AnalysisError, ClassInfo, FuncInfo, dotted, unparse
-from ..match import pretty, CallSummaries
 
 PROP = "C14"
 LDM = "facilities.local_dynamic_map"
@@ -19,10 +26,357 @@ SV = f"{LDM}.ldm_service.LDMService"
 IF4 = f"{LDM}.if_ldm_4.InterfaceLDM4"
 
 
-def norm(s):
-    return re.sub(r"\s+", "", s)
+# --------------------------------------------------------------------------------------------
+# structural helpers
+# --------------------------------------------------------------------------------------------
+def is_name(n, name: str) -> bool:
+    return isinstance(n, ast.Name) and n.id == name
 
 
+def short(e, n: int = 100) -> str:
+    try:
+        return unparse(e)[:n] if e is not None else "None"
+    except Exception:  # pragma: no cover
+        return "<?>"
+
+
+def parse(src: str) -> ast.AST:
+    return ast.parse(src, mode="eval").body
+
+
+def inside(node, root) -> bool:
+    return any(n is node for n in ast.walk(root))
+
+
+def targets(P, fi, call) -> list:
+    if not isinstance(call, ast.Call):
+        return []
+    return [t for t in P.call_targets(fi, call, count=False, cha=False) if isinstance(t, (FuncInfo, ClassInfo))]
+
+
+def calls_to(P, fi, call, what) -> bool:
+    tg = targets(P, fi, call)
+    return len(tg) == 1 and tg[0] is what
+
+
+def bind(callee, call: ast.Call):
+    """parameter / field name -> argument node (defaults filled in); None when the binding is not static."""
+    if isinstance(callee, ClassInfo):
+        init = callee.find_method("__init__")
+        if init is not None:
+            callee = init
+        else:
+            names = [k for k, (ann, _) in callee.fields.items() if ann is not None]
+            defaults = {k: d for k, (ann, d) in callee.fields.items() if ann is not None and d is not None}
+            off = 0
+            kwonly = {}
+    if isinstance(callee, FuncInfo):
+        a = callee.node.args
+        names = [x.arg for x in a.posonlyargs + a.args]
+        off = 1 if (callee.kind in ("method", "classmethod", "property") or callee.name == "__init__") and names else 0
+        defaults = dict(zip(names[len(names) - len(a.defaults):], a.defaults))
+        kwonly = {x.arg: d for x, d in zip(a.kwonlyargs, a.kw_defaults)}
+    if any(isinstance(x, ast.Starred) for x in call.args) or any(k.arg is None for k in call.keywords):
+        return None
+    out = {}
+    for i, x in enumerate(call.args):
+        if i + off >= len(names):
+            return None
+        out[names[i + off]] = x
+    for k in call.keywords:
+        if k.arg in out or (k.arg not in names and k.arg not in kwonly):
+            return None
+        out[k.arg] = k.value
+    for nm, d in defaults.items():
+        out.setdefault(nm, d)
+    for nm, d in kwonly.items():
+        if d is not None:
+            out.setdefault(nm, d)
+    return out
+
+
+# --------------------------------------------------------------------------------------------
+# path-by-path symbolic walk of a statement block
+# --------------------------------------------------------------------------------------------
+class Path:
+    """items: ('cond', test, polarity) | ('call', call with locals substituted, original node) |
+              ('store', container, key, value, stmt) | ('setattr', target, value, stmt) | ('del', container, key, stmt) |
+              ('loop', stmt, iterable) | ('with', expr) | ('except', handler)
+       end:   (kind, stmt, value)  kind in return / raise / continue / break / fall"""
+    __slots__ = ("items", "env", "end")
+
+    def __init__(self, items=None, env=None):
+        self.items = list(items or [])
+        self.env = dict(env or {})
+        self.end = None
+
+    def fork(self):
+        return Path(self.items, self.env)
+
+    def atoms(self, upto=None) -> set:
+        out = set()
+        for it in (self.items if upto is None else self.items[:upto]):
+            if it[0] == "cond":
+                out |= set(sem.atoms(it[1], it[2]))
+        return out
+
+    def flat(self, upto=None) -> list:
+        """branch conditions as flat (node, polarity) atoms (conjunctions split, negations pushed in)"""
+        out = []
+        for it in (self.items if upto is None else self.items[:upto]):
+            if it[0] == "cond":
+                out += cond_atoms(it[1], it[2])
+        return out
+
+    def calls(self, orig=None):
+        return [(i, it[1]) for i, it in enumerate(self.items) if it[0] == "call" and (orig is None or it[2] is orig)]
+
+
+class Explorer:
+    LIMIT = 4096
+
+    def __init__(self):
+        self._n = 0
+
+    def fresh(self, name: str) -> ast.Name:
+        self._n += 1
+        return ast.Name(id=f"{name.replace('.', '_')}__h{self._n}", ctx=ast.Load())
+
+    # ---- substitution of locals
+    def subst(self, e, env):
+        if e is None:
+            return None
+        ex = self
+
+        class T(ast.NodeTransformer):
+            def __init__(self):
+                self.shadow = []
+
+            def visit_Name(self, n):
+                if isinstance(n.ctx, ast.Load) and n.id in env and not any(n.id in s for s in self.shadow):
+                    return copy.deepcopy(env[n.id])
+                return n
+
+            def _comp(self, n):
+                names = {x.id for g in n.generators for x in ast.walk(g.target) if isinstance(x, ast.Name)}
+                # the first iterable is evaluated outside the comprehension's scope
+                first = self.visit(n.generators[0].iter)
+                self.shadow.append(names)
+                try:
+                    n = self.generic_visit(n)
+                finally:
+                    self.shadow.pop()
+                n.generators[0].iter = first
+                return n
+
+            visit_ListComp = visit_SetComp = visit_GeneratorExp = visit_DictComp = _comp
+
+            def visit_Lambda(self, n):
+                a = n.args
+                self.shadow.append({x.arg for x in a.posonlyargs + a.args + a.kwonlyargs} | ({a.vararg.arg} if a.vararg else set())
+                                   | ({a.kwarg.arg} if a.kwarg else set()))
+                try:
+                    return self.generic_visit(n)
+                finally:
+                    self.shadow.pop()
+
+        out = T().visit(copy.deepcopy(e))
+        for n in ast.walk(out):
+            if hasattr(n, "ctx") and not isinstance(n.ctx, ast.Load) and not isinstance(n, ast.Name):
+                n.ctx = ast.Load()
+        return out
+
+    def _calls(self, p: Path, e):
+        if e is None:
+            return
+
+        def rec(n):
+            for c in ast.iter_child_nodes(n):
+                rec(c)
+            if isinstance(n, ast.Call):
+                p.items.append(("call", self.subst(n, p.env), n))
+        rec(e)
+
+    def _freeze(self, p: Path, container):
+        key = unparse(container)
+        for k, v in list(p.env.items()):
+            if key in unparse(v):
+                p.env[k] = self.fresh(k)
+
+    def _havoc(self, p: Path, stmts):
+        for n in FunctionFlow.assigned_names(stmts):
+            if "." not in n:
+                p.env[n] = self.fresh(n)
+
+    def _assign(self, p: Path, tgt, value, stmt):
+        if isinstance(tgt, ast.Name):
+            p.env[tgt.id] = value if value is not None else self.fresh(tgt.id)
+        elif isinstance(tgt, (ast.Tuple, ast.List)):
+            for i, t in enumerate(tgt.elts):
+                v = value.elts[i] if isinstance(value, (ast.Tuple, ast.List)) and len(value.elts) == len(tgt.elts) else None
+                self._assign(p, t, v, stmt)
+        elif isinstance(tgt, ast.Subscript):
+            c = self.subst(tgt.value, p.env)
+            p.items.append(("store", c, self.subst(tgt.slice, p.env), value, stmt))
+            self._freeze(p, c)
+        elif isinstance(tgt, ast.Attribute):
+            c = self.subst(tgt, p.env)
+            p.items.append(("setattr", c, value, stmt))
+            self._freeze(p, c)
+        elif isinstance(tgt, ast.Starred):
+            self._assign(p, tgt.value, None, stmt)
+
+    # ---- the walk
+    def block(self, stmts, paths):
+        closed = []
+        for s in stmts:
+            nxt = []
+            for p in paths:
+                o, c = self.stmt(s, p)
+                nxt += o
+                closed += c
+            paths = nxt
+            if len(paths) + len(closed) > self.LIMIT:
+                raise AnalysisError("C14: too many paths")
+            if not paths:
+                break
+        return paths, closed
+
+    def stmt(self, s, p: Path):
+        if isinstance(s, ast.Expr):
+            self._calls(p, s.value)
+            v = s.value
+            if isinstance(v, ast.Call) and isinstance(v.func, ast.Attribute) and v.func.attr in FunctionFlow.MUTATORS:
+                self._freeze(p, self.subst(v.func.value, p.env))
+            return [p], []
+        if isinstance(s, (ast.Assign, ast.AnnAssign, ast.Return)) and isinstance(s.value, ast.IfExp):
+            # a conditional expression as the assigned / returned value is a branch like any other
+            def arm(v):
+                n = copy.copy(s)
+                n.value = v
+                return n
+            return self.stmt(ast.copy_location(ast.If(test=s.value.test, body=[arm(s.value.body)], orelse=[arm(s.value.orelse)]), s), p)
+        if isinstance(s, (ast.Assign, ast.AnnAssign)):
+            if s.value is None:
+                return [p], []
+            self._calls(p, s.value)
+            v = self.subst(s.value, p.env)
+            for t in (s.targets if isinstance(s, ast.Assign) else [s.target]):
+                self._assign(p, t, v, s)
+            return [p], []
+        if isinstance(s, ast.AugAssign):
+            self._calls(p, s.value)
+            load = copy.deepcopy(s.target)
+            for n in ast.walk(load):
+                if hasattr(n, "ctx"):
+                    n.ctx = ast.Load()
+            self._assign(p, s.target, self.subst(ast.BinOp(left=load, op=s.op, right=s.value), p.env), s)
+            return [p], []
+        if isinstance(s, ast.If):
+            self._calls(p, s.test)
+            t = self.subst(s.test, p.env)
+            a, b = p, p.fork()
+            a.items.append(("cond", t, True))
+            b.items.append(("cond", t, False))
+            o1, c1 = self.block(s.body, [a])
+            o2, c2 = self.block(s.orelse, [b]) if s.orelse else ([b], [])
+            return o1 + o2, c1 + c2
+        if isinstance(s, (ast.For, ast.AsyncFor, ast.While)):
+            if isinstance(s, ast.While):
+                self._calls(p, s.test)
+            else:
+                self._calls(p, s.iter)
+                p.items.append(("loop", s, self.subst(s.iter, p.env)))
+            self._havoc(p, [s])
+            return [p], []
+        if isinstance(s, (ast.With, ast.AsyncWith)):
+            for it in s.items:
+                self._calls(p, it.context_expr)
+                p.items.append(("with", self.subst(it.context_expr, p.env)))
+                if it.optional_vars is not None:
+                    self._assign(p, it.optional_vars, None, s)
+            return self.block(s.body, [p])
+        if isinstance(s, ast.Try):
+            entry = p.fork()
+            opens, closed = self.block(s.body, [p])
+            if s.orelse:
+                opens, c2 = self.block(s.orelse, opens)
+                closed += c2
+            for h in s.handlers:
+                hp = entry.fork()
+                self._havoc(hp, s.body)
+                hp.items.append(("except", h))
+                if h.name:
+                    hp.env[h.name] = self.fresh(h.name)
+                o, c = self.block(h.body, [hp])
+                opens += o
+                closed += c
+            if s.finalbody:
+                opens, c3 = self.block(s.finalbody, opens)
+                closed += c3
+            return opens, closed
+        if isinstance(s, ast.Return):
+            self._calls(p, s.value)
+            p.end = ("return", s, self.subst(s.value, p.env))
+            return [], [p]
+        if isinstance(s, ast.Raise):
+            self._calls(p, s.exc)
+            p.end = ("raise", s, None)
+            return [], [p]
+        if isinstance(s, (ast.Continue, ast.Break)):
+            p.end = ("continue" if isinstance(s, ast.Continue) else "break", s, None)
+            return [], [p]
+        if isinstance(s, ast.Delete):
+            for t in s.targets:
+                if isinstance(t, ast.Subscript):
+                    c = self.subst(t.value, p.env)
+                    p.items.append(("del", c, self.subst(t.slice, p.env), s))
+                    self._freeze(p, c)
+                elif isinstance(t, ast.Name):
+                    p.env[t.id] = self.fresh(t.id)
+            return [p], []
+        if isinstance(s, ast.Assert):
+            self._calls(p, s.test)
+            p.items.append(("cond", self.subst(s.test, p.env), True))
+            return [p], []
+        if isinstance(s, (ast.Pass, ast.Import, ast.ImportFrom, ast.Global, ast.Nonlocal, ast.FunctionDef, ast.AsyncFunctionDef, ast.ClassDef)):
+            return [p], []
+        raise AnalysisError(f"C14: unsupported statement {type(s).__name__} at line {getattr(s, 'lineno', 0)}")
+
+    def explore(self, stmts) -> list:
+        body = [b for b in stmts if not (isinstance(b, ast.Expr) and isinstance(b.value, ast.Constant))]
+        opens, closed = self.block(body, [Path()])
+        for p in opens:
+            p.end = ("fall", None, None)
+        return closed + opens
+
+
+def implied(atoms: set, test, pol: bool = True) -> bool:
+    """The path conditions `atoms` entail that `test` evaluates to `pol` (sufficient check: a conjunction needs every
+    member, a disjunction needs the same disjunction as one branch condition or one of its members)."""
+    if isinstance(test, str):
+        test = parse(test)
+    if isinstance(test, ast.UnaryOp) and isinstance(test.op, ast.Not):
+        return implied(atoms, test.operand, not pol)
+    if isinstance(test, ast.BoolOp):
+        conj = (isinstance(test.op, ast.And) and pol) or (isinstance(test.op, ast.Or) and not pol)
+        if conj:
+            return all(implied(atoms, v, pol) for v in test.values)
+        w = sem.atoms(test, pol)
+        return (bool(w) and all(a in atoms for a in w)) or any(implied(atoms, v, pol) for v in test.values)
+    w = sem.atoms(test, pol)
+    return bool(w) and all(a in atoms for a in w)
+
+
+def same(a, b) -> bool:
+    if a is None or b is None:
+        return False
+    return sem.same(a, b)
+
+
+# --------------------------------------------------------------------------------------------
+# the rule
+# --------------------------------------------------------------------------------------------
 def run(ctx):
     P = ctx.prog
     ctx.explanation = (
@@ -30,169 +384,543 @@ def run(ctx):
         "(attend_subscriptions -> process_notifications), provenance rules on the data handed over, paired-update rules on "
         "the subscription list / last-notified map, a decision table for the seven validators of subscribe requests "
         "(validator false => matching result code, storing only after all seven), and the reactive trigger on add. "
-        "Path-universal, hence valid for every interleaving of subscribe / unsubscribe / add the single-threaded walk can take.")
-    ctx.declined = ["cadence as real time", "isolation between subscriptions over histories"]
+        "Every rule is decided on each path of the function concerned (symbolic walk with locals substituted, branch "
+        "conditions compared as canonical atoms, callees resolved, arguments bound to parameter names) - "
+        "path-universal, hence valid for every interleaving of subscribe / unsubscribe / add the single-threaded walk can take.")
+    ctx.declined = ["cadence as real time", "isolation between subscriptions over histories",
+                    "expressions are compared as written (a call spelled twice denotes one value)"]
     sv = P.cls(SV)
+    if4 = P.cls(IF4)
+    X = Explorer()
+    check_attend(ctx, P, X, sv)
+    check_search_data(ctx, P, X, sv)
+    check_process(ctx, P, X, sv)
+    check_bookkeeping(ctx, P, X, sv)
+    check_validation(ctx, P, X, sv, if4)
+    check_unsubscribe_if(ctx, P, X, sv, if4)
+    check_reactive(ctx, P, X)
+    ctx.floor("C14.notify-guards", 4)
+    ctx.floor("C14.notify-data", 5)
+    ctx.floor("C14.bookkeeping", 7)
+    ctx.floor("C14.unsubscribe", 4)
+    ctx.floor("C14.validation", 22)
+    ctx.floor("C14.reactive", 2)
+
+
+# ---------------------------------------------------------------- attend_subscriptions
+def check_attend(ctx, P, X, sv):
     att = sv.methods["attend_subscriptions"]
     pn = sv.methods["process_notifications"]
-    fl = ctx.flows.get(att)
-    calls = [c for c in P.calls_in(att) if isinstance(c.func, ast.Attribute) and c.func.attr == "process_notifications"]
+    sd = sv.methods["search_data"]
+    osr = sv.methods["order_search_results"]
+    reg = sv.methods["get_data_consumer_its_aid"]
+    rm = sv.methods["remove_subscription"]
+    calls = [c for c in P.calls_in(att) if calls_to(P, att, c, pn)]
     if len(calls) != 1:
         raise AnalysisError(f"C14: attend_subscriptions calls process_notifications {len(calls)} times (confirmed: 1)")
     c = calls[0]
-    st = fl.state_at(c)
-    conds = {norm(pretty(f.xkey)): f.pol for f in st.facts if f.kind == "cond"}
-    nonempty = conds.get("self.search_data(subscription)") is True
-    ctx.ob("C14.notify-guards", att.short(), "non-empty", nonempty, "no notification for an empty result", f"{att.module.rel}:{c.lineno}")
-    mult = any((not v) and "multiplicityisnotNoneand" in k and "multiplicity>len(self.search_data(subscription))" in k for k, v in conds.items())
-    ctx.ob("C14.notify-guards", att.short(), "multiplicity", mult,
-           "notification only when at least `multiplicity` objects match" if mult else
-           "the multiplicity test `multiplicity > len(result) -> skip` no longer guards the notification", f"{att.module.rel}:{c.lineno}")
-    reg = any(v and "application_idinself.get_data_consumer_its_aid()" in k for k, v in conds.items()) or \
-        any((not v) and "application_idinself.get_data_consumer_its_aid()" in k and False for k, v in conds.items())
-    reg = reg or any((v is False) and k.endswith("notinself.get_data_consumer_its_aid()") for k, v in conds.items())
-    ctx.ob("C14.notify-guards", att.short(), "consumer-registered", reg,
-           "a notification is produced only for a consumer that is still registered" if reg else
-           "attend_subscriptions tests the consumer registry only AFTER process_notifications: a consumer that deregistered is "
-           "called back once more before its subscription is dropped", f"{att.module.rel}:{c.lineno}")
-    # data handed to the notification
-    arg = norm(pretty(unparse(fl.expand(c.args[1], st)))) if len(c.args) > 1 else ""
-    alts = {norm(pretty(unparse(a))) for a in fl.alternatives(c.args[1], st)} if len(c.args) > 1 else set()
-    ok = alts <= {"self.search_data(subscription)",
-                  "self.order_search_results(self.search_data(subscription),subscription.subscription_request.order)[0]"} and alts
-    ctx.ob("C14.notify-data", att.short(), "result-of-this-subscription", bool(ok),
-           f"data notified = {sorted(a[:90] for a in alts)}: the search for this subscription, ordered by its own order tuple",
-           f"{att.module.rel}:{c.lineno}")
+    loops = [n for n in ast.walk(att.node) if isinstance(n, ast.For) and inside(c, n)]
+    if len(loops) != 1 or not isinstance(loops[0].target, ast.Name) or loops[0] not in att.node.body:
+        raise AnalysisError("C14: process_notifications is no longer called from one loop over the subscriptions")
+    loop = loops[0]
+    sub = loop.target.id
+    loc = f"{att.module.rel}:{c.lineno}"
+    stable = sub not in FunctionFlow.assigned_names(loop.body) and not any(
+        n.startswith(sub + ".") for n in FunctionFlow.assigned_names(att.node.body))
+    paths = X.explore(loop.body)
+    hits = [(p, i, xc) for p in paths for i, xc in p.calls(c)]
+    if not hits:
+        raise AnalysisError("C14: no path of the subscription loop reaches process_notifications")
+    R = parse(f"self.search_data({sub})")
+    if not calls_to(P, att, R, sd):
+        raise AnalysisError("C14: LDMService.search_data(subscription) no longer resolves")
+    REG = parse("self.get_data_consumer_its_aid()")
+    if not calls_to(P, att, REG, reg):
+        raise AnalysisError("C14: LDMService.get_data_consumer_its_aid() no longer resolves")
+    M = f"{sub}.subscription_request.multiplicity"
+    ORDER = f"{sub}.subscription_request.order"
+    registered = parse(f"{sub}.subscription_request.application_id in {unparse(REG)}")
+    mult = parse(f"{M} is not None and {M} > len({unparse(R)})")
+
+    def is_ordered(e):
+        """e == self.order_search_results(R, ORDER) (arguments bound by name)"""
+        if not (isinstance(e, ast.Call) and calls_to(P, att, e, osr)):
+            return False
+        bd = bind(osr, e)
+        return bd is not None and same(bd.get(osr.params[1]), R) and same(bd.get(osr.params[2]), ORDER)
+
+    g_nonempty = g_mult = g_reg = stable
+    data_ok, data_why = stable, []
+    for p, i, xc in hits:
+        A = p.atoms(i)
+        g_nonempty = g_nonempty and implied(A, R, True)
+        g_mult = g_mult and implied(A, mult, False)
+        g_reg = g_reg and implied(A, registered, True)
+        bd = bind(pn, xc)
+        if bd is None or not is_name(bd.get(pn.params[1]), sub):
+            data_ok = False
+            data_why.append(f"process_notifications is handed `{short(xc)}`: not the subscription being attended")
+            continue
+        d = bd.get(pn.params[2])
+        flat = p.flat(i)
+        if same(d, R):
+            # unordered data only where no order was requested (or ordering produced nothing)
+            no_order = implied(A, f"{ORDER} is not None", False) or any((not pol) and is_ordered(n) for n, pol in flat)
+            if not no_order:
+                data_ok = False
+                data_why.append("a subscription that requests an order is notified with the UNORDERED search result")
+        elif isinstance(d, ast.Subscript) and isinstance(d.slice, ast.Constant) and d.slice.value == 0 and is_ordered(d.value):
+            if not implied(A, f"{ORDER} is not None", True):
+                data_ok = False
+                data_why.append("the result is ordered although no order was requested")
+        else:
+            data_ok = False
+            data_why.append(f"data notified = `{short(d)}`: neither this subscription's search result nor its ordering")
+    ctx.ob("C14.notify-guards", att.short(), "non-empty", g_nonempty, "no notification for an empty result", loc)
+    ctx.ob("C14.notify-guards", att.short(), "multiplicity", g_mult,
+           "notification only when at least `multiplicity` objects match" if g_mult else
+           "some path notifies although `multiplicity is not None and multiplicity > len(result)`", loc)
+    ctx.ob("C14.notify-guards", att.short(), "consumer-registered", g_reg,
+           "a notification is produced only for a consumer that is still registered" if g_reg else
+           "some path reaches process_notifications without having found the consumer in the registry: a consumer that deregistered is "
+           "called back once more before its subscription is dropped", loc)
+    ctx.ob("C14.notify-data", att.short(), "result-of-this-subscription", data_ok,
+           "data notified = the search for this subscription, ordered by its own order tuple whenever it has one" if data_ok else
+           "; ".join(dict.fromkeys(data_why)) or "the loop variable is re-bound", loc)
+    # subscriptions of deregistered consumers are collected (exactly those) and dropped after the loop
+    acc = None
+    for p in paths:
+        for _, xc in p.calls():
+            if isinstance(xc.func, ast.Attribute) and xc.func.attr in ("add", "append") and isinstance(xc.func.value, ast.Name) \
+                    and len(xc.args) == 1 and is_name(xc.args[0], sub):
+                acc = xc.func.value.id
+    ok, why = acc is not None, []
+    if acc is None:
+        why.append("no collection of subscriptions to drop")
+    else:
+        def adds(p):
+            return any(isinstance(xc.func, ast.Attribute) and xc.func.attr in ("add", "append") and is_name(xc.func.value, acc)
+                       and len(xc.args) == 1 and is_name(xc.args[0], sub) for _, xc in p.calls())
+        for p in paths:
+            gone = implied(p.atoms(), registered, False)
+            if adds(p) != gone:
+                ok = False
+                why.append("a subscription is marked for removal although its consumer was not found deregistered" if adds(p) else
+                           "a subscription of a deregistered consumer is not marked for removal")
+        init = [s for s in att.node.body if isinstance(s, ast.Assign) and len(s.targets) == 1 and is_name(s.targets[0], acc)]
+        uses = [n for n in ast.walk(att.node) if isinstance(n, ast.Name) and n.id == acc]
+        empty = len(init) == 1 and ((isinstance(init[0].value, ast.Call) and dotted(init[0].value.func) in ("set", "list") and not init[0].value.args)
+                                    or (isinstance(init[0].value, ast.List) and not init[0].value.elts))
+        drops = [s for s in att.node.body if isinstance(s, ast.For) and is_name(s.iter, acc) and isinstance(s.target, ast.Name)
+                 and att.node.body.index(s) > att.node.body.index(loop)]
+        if not empty or len(uses) != 3 or len(drops) != 1:
+            ok = False
+            why.append(f"`{acc}` is not (an initially empty collection, filled in the loop, walked once afterwards)")
+        else:
+            for p in X.explore(drops[0].body):
+                if not any(calls_to(P, att, xc, rm) and len(xc.args) == 1 and is_name(xc.args[0], drops[0].target.id) for _, xc in p.calls()):
+                    ok = False
+                    why.append("a collected subscription is not handed to remove_subscription")
+    ctx.ob("C14.unsubscribe", att.short(), "deregistered-removed", ok and stable,
+           "subscriptions of deregistered consumers (exactly those) are dropped" if ok else "; ".join(dict.fromkeys(why)), att.loc)
+
+
+# ---------------------------------------------------------------- search_data
+def check_search_data(ctx, P, X, sv):
     sd = sv.methods["search_data"]
-    src = norm(unparse(sd.node))
-    ok = all(f"subscription.subscription_request.{x}" in src for x in ("application_id", "data_object_type", "priority", "order", "filter")) \
-        and "returnself.ldm_maintenance.data_containers.search(data_request)" in src
-    ctx.ob("C14.notify-data", sd.short(), "request-built-from-subscription", ok,
+    req = P.cls(f"{LDM}.ldm_classes.RequestDataObjectsReq")
+    subp = sd.params[1]
+    stable = subp not in FunctionFlow.assigned_names(sd.node.body)
+    fields = ("application_id", "data_object_type", "priority", "order", "filter")
+    built_all, n = stable, 0
+    for p in X.explore(sd.node.body):
+        kind, s_, v = p.end
+        if kind == "raise":
+            continue
+        n += 1
+        from_backend = isinstance(v, ast.Call) and isinstance(v.func, ast.Attribute) and v.func.attr == "search" and \
+            same(v.func.value, "self.ldm_maintenance.data_containers") and len(v.args) == 1 and not v.keywords
+        built, missing = False, list(fields)
+        if from_backend and calls_to(P, sd, v.args[0], req):
+            bd = bind(req, v.args[0]) or {}
+            missing = [f for f in fields if not same(bd.get(f), f"{subp}.subscription_request.{f}")]
+            built = not missing
+        built_all = built_all and built
+        line = s_.lineno if s_ is not None else sd.node.lineno
+        ctx.ob("C14.notify-data", sd.short(), f"return@{line - sd.node.lineno}", from_backend and built,
+               "every result handed to a notification comes from the back-end search for this subscription's types and filter" if from_backend and built else
+               (f"a subscription result is produced by `{short(v)}`: it bypasses the type / filter selection of this subscription" if not from_backend
+                else f"the search request does not carry this subscription's {missing}"), f"{sd.module.rel}:{line}")
+    ctx.ob("C14.notify-data", sd.short(), "request-built-from-subscription", built_all and n > 0,
            "the search request is built from this subscription's types, filter, order and priority", sd.loc)
-    fsd = ctx.flows.get(sd)
-    for k_, s_, st_ in fsd.exits:
-        if k_ == "return":
-            u = norm(pretty(unparse(fsd.expand(s_.value, st_))))
-            okr = u.startswith("self.ldm_maintenance.data_containers.search(RequestDataObjectsReq(subscription.subscription_request.application_id,"
-                               "subscription.subscription_request.data_object_type,")
-            ctx.ob("C14.notify-data", sd.short(), f"return@{s_.lineno - sd.node.lineno}", okr,
-                   "every result handed to a notification comes from the back-end search for this subscription's types and filter" if okr else
-                   f"a subscription result is produced by `{u[:90]}`: it bypasses the type / filter selection of this subscription",
-                   f"{sd.module.rel}:{s_.lineno}")
-    # process_notifications: interval test, stamp advanced exactly when notifying, callback outside the lock
-    fl2 = ctx.flows.get(pn)
-    cbs = [x for x in P.calls_in(pn) if (dotted(x.func) or "").endswith(".callback")]
+
+
+# ---------------------------------------------------------------- process_notifications
+def check_process(ctx, P, X, sv):
+    pn = sv.methods["process_notifications"]
+    subp, datap = pn.params[1], pn.params[2]
+    ts = P.cls(f"{LDM}.ldm_classes.TimestampIts")
+    resp = P.cls(f"{LDM}.ldm_classes.RequestDataObjectsResp")
+    cbs = [x for x in P.calls_in(pn) if isinstance(x.func, ast.Attribute) and x.func.attr == "callback"]
     if len(cbs) != 1:
         raise AnalysisError(f"C14: {len(cbs)} callback invocations in process_notifications (confirmed: 1)")
     cb = cbs[0]
-    stc = fl2.state_at(cb)
-    condc = {norm(pretty(f.key)): f.pol for f in stc.facts if f.kind == "cond"}
-    interval = any((v is False) and k == "notify_timeisnotNoneandlast_checked+notify_time>current_time" for k, v in condc.items())
-    ctx.ob("C14.notify-guards", pn.short(), "interval", interval,
-           "callback only when last_notified + notify_time <= now" if interval else "the interval test no longer guards the callback",
-           f"{pn.module.rel}:{cb.lineno}")
-    stamped = any(f.kind == "call" and norm(pretty(f.key)) == "__setitem__(self.last_checked_subscriptions_time,subscription)" for f in stc.facts)
-    ctx.ob("C14.bookkeeping", pn.short(), "stamp-when-notifying", stamped,
-           "the last-notified time is advanced on the path that invokes the callback", f"{pn.module.rel}:{cb.lineno}")
-    # no stamp on the skipping path (other than the initial one)
-    for k, s_, st_ in fl2.exits:
-        if k == "return" and s_.value is None:
-            ds = [fl2.defs[i] for i in st_.defs.get("self.last_checked_subscriptions_time[]", ())]
-            late = [d for d in ds if "last_checkedisNone" not in "".join(norm(pretty(f.key)) for f in fl2.before[id(d.stmt)].facts if f.kind == "cond" and f.pol)]
-            ctx.ob("C14.bookkeeping", pn.short(), "no-stamp-when-skipping", not late,
-                   "a skipped notification does not advance the last-notified time (so it fires at the first attendance after the interval)"
-                   if not late else "the last-notified time is advanced although no notification is sent: the interval restarts at every attendance",
-                   f"{pn.module.rel}:{s_.lineno}")
-    kw = {k_.arg: k_.value for k_ in cb.args[0].keywords} if cb.args and isinstance(cb.args[0], ast.Call) else {}
-    ctx.ob("C14.notify-data", pn.short(), "callback-payload", norm(unparse(kw.get("data_objects", ast.Constant(None)))) == "valid_search_result"
-           and "application_id" in kw, "the callback receives the search result it was handed and the subscriber's application id",
-           f"{pn.module.rel}:{cb.lineno}")
-    ctx.ob("C14.notify-data", pn.short(), "own-callback", (dotted(cb.func) or "") == "subscription.callback",
-           "the callback invoked is the one stored with this subscription", f"{pn.module.rel}:{cb.lineno}")
-    # bookkeeping pairs
-    st_new = sv.methods["store_new_subscription_petition"]
-    src = norm(unparse(st_new.node))
-    ctx.ob("C14.bookkeeping", st_new.short(), "paired-insert", "self.subscriptions.append(new_subscription)" in src and
-           "self.last_checked_subscriptions_time[new_subscription]=" in src, "subscription list and last-notified map are filled together", st_new.loc)
-    ctx.ob("C14.bookkeeping", st_new.short(), "id", "returnhash(new_subscription.subscription_request)" in src,
-           "the subscription id is the hash the unsubscribe path compares with", st_new.loc)
-    rm = sv.methods["remove_subscription"]
-    src = norm(unparse(rm.node))
-    ctx.ob("C14.bookkeeping", rm.short(), "paired-remove", "self.subscriptions.remove(subscription)" in src and
-           "self.last_checked_subscriptions_time.pop(subscription,None)" in src, "both structures are cleaned together", rm.loc)
-    ds = sv.methods["delete_subscription"]
-    fl3 = ctx.flows.get(ds)
-    for x in P.calls_in(ds):
-        if isinstance(x.func, ast.Attribute) and x.func.attr == "remove_subscription":
-            pass
-    src = norm(unparse(ds.node))
-    ctx.ob("C14.unsubscribe", ds.short(), "only-matching-id", "ifhash(subscription.subscription_request)==subscription_id:to_remove.add(subscription)" in src
-           and "forsubscriptioninto_remove:self.remove_subscription(subscription)" in src and "returnbool(to_remove)" in src,
-           "exactly the subscriptions whose id equals the argument are removed; the result tells whether any was", ds.loc)
-    # removal after deregistration
-    ctx.ob("C14.unsubscribe", att.short(), "deregistered-removed", "subscriptions_to_remove.add(subscription)" in norm(unparse(att.node)) and
-           "self.remove_subscription(subscription)" in norm(unparse(att.node)), "subscriptions of deregistered consumers are dropped", att.loc)
+    loc = f"{pn.module.rel}:{cb.lineno}"
+    stable = not ({subp, datap} & FunctionFlow.assigned_names(pn.node.body))
+    paths = X.explore(pn.node.body)
+    hits = [(p, i, xc) for p in paths for i, xc in p.calls(cb)]
+    if not hits:
+        raise AnalysisError("C14: no path of process_notifications reaches the callback")
+    # the last-notified map: the one container this function stores into under the subscription
+    maps = {sem.cx(it[1]) for p in paths for it in p.items if it[0] == "store" and is_name(it[2], subp)}
+    if len(maps) != 1:
+        raise AnalysisError(f"C14: process_notifications stores the subscription's stamp into {sorted(maps) or 'nothing'} (confirmed: one map)")
+    MAP = next(iter(maps))
+    stored_forms = [f"{MAP}.get({subp})", f"{MAP}.get({subp}, None)", f"{MAP}[{subp}]"]
+    NT = f"{subp}.subscription_request.notify_time"
 
-    # ---- validation decision table
-    if4 = P.cls(IF4)
+    def is_now(e) -> bool:
+        if not (isinstance(e, ast.Call) and not e.args and not e.keywords):
+            return False
+        tg = targets(P, pn, e)
+        return len(tg) == 1 and isinstance(tg[0], FuncInfo) and tg[0].cls is ts and tg[0].name == "initialize_with_utc_timestamp_seconds"
+
+    def no_stamp_yet(A) -> bool:
+        return any(implied(A, f"{s} is None", True) for s in stored_forms)
+
+    def stamps_before(p, i):
+        return [it for it in p.items[:i] if it[0] == "store" and sem.cx(it[1]) == MAP and is_name(it[2], subp)]
+
+    interval, stamped = stable, stable
+    nows = set()
+    for p, i, xc in hits:
+        A = p.atoms(i)
+        st = stamps_before(p, i)
+        good = [it for it in st if is_now(it[3])]
+        stamped = stamped and bool(st) and is_now(st[-1][3])
+        for it in good:
+            nows.add(sem.cx(it[3]))
+        now = unparse(good[-1][3]) if good else "TimestampIts.initialize_with_utc_timestamp_seconds()"
+        lasts = [now] if no_stamp_yet(A) else stored_forms
+        interval = interval and any(implied(A, f"{NT} is not None and {l} + {NT} > {now}", False) for l in lasts)
+    ctx.ob("C14.notify-guards", pn.short(), "interval", interval,
+           "callback only when last_notified + notify_time <= now" if interval else
+           "some path invokes the callback although `notify_time is not None and last_notified + notify_time > now`", loc)
+    ctx.ob("C14.bookkeeping", pn.short(), "stamp-when-notifying", stamped and len(nows) <= 1,
+           "the last-notified time is advanced (to the `now` of the interval test) on every path that invokes the callback, before invoking it"
+           if stamped else "some path invokes the callback without having advanced the last-notified time of this subscription to `now`", loc)
+    # skipping paths: only the initial stamp (there was none) may be written
+    n_skip = 0
+    for p in paths:
+        if p.calls(cb) or p.end[0] == "raise":
+            continue
+        n_skip += 1
+        late = [it for j, it in enumerate(p.items) if it[0] in ("store", "del") and sem.cx(it[1]) == MAP and not no_stamp_yet(p.atoms(j))]
+        line = p.end[1].lineno if p.end[1] is not None else pn.node.lineno
+        ctx.ob("C14.bookkeeping", pn.short(), "no-stamp-when-skipping", not late,
+               "a skipped notification does not advance the last-notified time (so it fires at the first attendance after the interval)"
+               if not late else "the last-notified time is advanced although no notification is sent: the interval restarts at every attendance",
+               f"{pn.module.rel}:{line}")
+    if not n_skip:
+        ctx.ob("C14.bookkeeping", pn.short(), "no-stamp-when-skipping", False, "process_notifications never skips a notification", pn.loc)
+    pay = True
+    for p, i, xc in hits:
+        a0 = xc.args[0] if len(xc.args) == 1 and not xc.keywords else None
+        bd = bind(resp, a0) if isinstance(a0, ast.Call) and calls_to(P, pn, a0, resp) else None
+        pay = pay and bd is not None and is_name(bd.get("data_objects"), datap) and \
+            same(bd.get("application_id"), f"{subp}.subscription_request.application_id")
+    ctx.ob("C14.notify-data", pn.short(), "callback-payload", pay and stable,
+           "the callback receives the search result it was handed and the subscriber's application id", loc)
+    ctx.ob("C14.notify-data", pn.short(), "own-callback", is_name(cb.func.value, subp) and stable,
+           "the callback invoked is the one stored with this subscription", loc)
+
+
+# ---------------------------------------------------------------- the two subscription structures
+def check_bookkeeping(ctx, P, X, sv):
+    st_new = sv.methods["store_new_subscription_petition"]
+    rm = sv.methods["remove_subscription"]
+    ds = sv.methods["delete_subscription"]
+    pn = sv.methods["process_notifications"]
+    info = P.cls(f"{LDM}.ldm_classes.SubscriptionInfo")
+    # the containers: list appended to on subscribe, map stored into on subscribe
+    reqp, cbp = st_new.params[1], st_new.params[2]
+
+    def is_new(e) -> bool:
+        if not (isinstance(e, ast.Call) and calls_to(P, st_new, e, info)):
+            return False
+        bd = bind(info, e)
+        return bd is not None and is_name(bd.get("subscription_request"), reqp) and is_name(bd.get("callback"), cbp)
+
+    paired, ident, lists, maps = True, True, set(), set()
+    paths = [p for p in X.explore(st_new.node.body) if p.end[0] != "raise"]
+    for p in paths:
+        app = [xc for _, xc in p.calls() if isinstance(xc.func, ast.Attribute) and xc.func.attr == "append" and len(xc.args) == 1 and is_new(xc.args[0])]
+        sto = [it for it in p.items if it[0] == "store" and is_new(it[2])]
+        paired = paired and len(app) == 1 and len(sto) == 1
+        lists |= {sem.cx(xc.func.value) for xc in app}
+        maps |= {sem.cx(it[1]) for it in sto}
+        v = p.end[2]
+        good = isinstance(v, ast.Call) and dotted(v.func) == "hash" and len(v.args) == 1 and not v.keywords
+        if good:
+            a = v.args[0]
+            good = is_name(a, reqp) or (isinstance(a, ast.Attribute) and a.attr == "subscription_request" and is_new(a.value))
+        ident = ident and good
+    paired = paired and bool(paths) and len(lists) == 1 and len(maps) == 1 and not ({reqp, cbp} & FunctionFlow.assigned_names(st_new.node.body))
+    ctx.ob("C14.bookkeeping", st_new.short(), "paired-insert", paired,
+           "subscription list and last-notified map are filled together, with the same new SubscriptionInfo(request, callback)", st_new.loc)
+    ctx.ob("C14.bookkeeping", st_new.short(), "id", ident and bool(paths),
+           "the subscription id is the hash of the subscription request - the value the unsubscribe path compares with", st_new.loc)
+    LIST = next(iter(lists)) if len(lists) == 1 else "self.subscriptions"
+    MAP = next(iter(maps)) if len(maps) == 1 else "self.last_checked_subscriptions_time"
+    # the map filled on subscribe is the one process_notifications reads its stamp from (sibling agreement)
+    pmaps = {sem.cx(it[1]) for p in X.explore(pn.node.body) for it in p.items if it[0] == "store"}
+    ctx.ob("C14.bookkeeping", pn.short(), "same-map", pmaps == {MAP},
+           f"subscribe and notify use the same last-notified map `{MAP}`" if pmaps == {MAP} else f"subscribe fills `{MAP}`, notify stamps {sorted(pmaps)}", pn.loc)
+    # remove_subscription
+    sp = rm.params[1]
+    ok = sp not in FunctionFlow.assigned_names(rm.node.body)
+    rpaths = X.explore(rm.node.body)
+    for p in rpaths:
+        if p.end[0] == "raise":
+            ok = False
+            continue
+        popped = any(isinstance(xc.func, ast.Attribute) and xc.func.attr == "pop" and sem.cx(xc.func.value) == MAP and xc.args and is_name(xc.args[0], sp)
+                     for _, xc in p.calls()) or any(it[0] == "del" and sem.cx(it[1]) == MAP and is_name(it[2], sp) for it in p.items)
+        removed = any(isinstance(xc.func, ast.Attribute) and xc.func.attr == "remove" and sem.cx(xc.func.value) == LIST and len(xc.args) == 1 and is_name(xc.args[0], sp)
+                      for _, xc in p.calls())
+        A = p.atoms()
+        ok = ok and (popped or implied(A, f"{sp} in {MAP}", False)) and (removed or implied(A, f"{sp} in {LIST}", False))
+    ctx.ob("C14.bookkeeping", rm.short(), "paired-remove", ok and bool(rpaths), "both structures are cleaned together" if ok else
+           "some path of remove_subscription leaves the subscription in the list or its entry in the last-notified map", rm.loc)
+    # delete_subscription: exactly the subscriptions whose id equals the argument
+    idp = ds.params[1]
+    ok, why = idp not in FunctionFlow.assigned_names(ds.node.body), []
+    fl = ctx.flows.get(ds)
+    loops = [s for s in ds.node.body if isinstance(s, ast.For)]
+    collect = [s for s in loops if isinstance(s.target, ast.Name) and sem.cx(fl.expand(s.iter, fl.state_at(s))) in
+               (LIST, f"{LIST}.copy()", f"list({LIST})", f"tuple({LIST})", f"{LIST}[0:]")]
+    acc = None
+    if len(collect) != 1:
+        ok = False
+        why.append(f"no single loop over `{LIST}`")
+    else:
+        lp = collect[0]
+        v = lp.target.id
+        match = parse(f"hash({v}.subscription_request) == {idp}")
+        for p in X.explore(lp.body):
+            adds = [xc for _, xc in p.calls() if isinstance(xc.func, ast.Attribute) and xc.func.attr in ("add", "append") and
+                    isinstance(xc.func.value, ast.Name) and len(xc.args) == 1 and is_name(xc.args[0], v)]
+            for xc in adds:
+                acc = xc.func.value.id if acc in (None, xc.func.value.id) else "?"
+            A = p.atoms()
+            if adds and not implied(A, match, True):
+                ok = False
+                why.append("a subscription is selected although hash(subscription_request) == subscription_id is not established")
+            if not adds and not implied(A, match, False):
+                ok = False
+                why.append("a subscription whose id matches is not selected")
+            if p.end[0] in ("break", "return", "raise"):
+                ok = False
+                why.append("the scan stops early")
+        if acc in (None, "?"):
+            ok = False
+            why.append("no collection of matching subscriptions")
+        else:
+            init = [s for s in ds.node.body if isinstance(s, ast.Assign) and len(s.targets) == 1 and is_name(s.targets[0], acc)]
+            empty = len(init) == 1 and ((isinstance(init[0].value, ast.Call) and dotted(init[0].value.func) in ("set", "list") and not init[0].value.args)
+                                        or (isinstance(init[0].value, ast.List) and not init[0].value.elts))
+            drops = [s for s in loops if is_name(s.iter, acc) and isinstance(s.target, ast.Name) and ds.node.body.index(s) > ds.node.body.index(lp)]
+            if not empty or len(drops) != 1:
+                ok = False
+                why.append(f"`{acc}` is not (initially empty, filled by the scan, walked once afterwards)")
+            else:
+                for p in X.explore(drops[0].body):
+                    if not any(calls_to(P, ds, xc, rm) and len(xc.args) == 1 and is_name(xc.args[0], drops[0].target.id) for _, xc in p.calls()) \
+                            or p.end[0] in ("break", "return", "raise"):
+                        ok = False
+                        why.append("a selected subscription is not handed to remove_subscription")
+            uses = [n for n in ast.walk(ds.node) if isinstance(n, ast.Name) and n.id == acc]
+            rets = [p for p in X.explore(ds.node.body) if p.end[0] != "raise"]
+            told = bool(rets) and all(p.end[0] == "return" and p.end[1].value is not None and
+                                      sem.atoms(p.end[1].value, True) == [f"truthy({acc})"] for p in rets)
+            if not told or len(uses) != 4:
+                ok = False
+                why.append("the result does not tell whether any subscription was selected")
+    ctx.ob("C14.unsubscribe", ds.short(), "only-matching-id", ok,
+           "exactly the subscriptions whose id equals the argument are removed; the result tells whether any was" if ok else
+           "; ".join(dict.fromkeys(why)), ds.loc)
+
+
+# ---------------------------------------------------------------- validation decision table
+TABLE = {"is_valid_its_aid": ("application_id", "INVALID_ITSA_ID", False),
+         "is_valid_data_object_type": ("data_object_type", "INVALID_DATA_OBJECT_TYPE", False),
+         "is_valid_priority": ("priority", "INVALID_PRIORITY", True),
+         "is_valid_order": ("order", "INVALID_ORDER", True),
+         "is_valid_filter": ("filter", "INVALID_FILTER", True),
+         "is_valid_notify_time": ("notify_time", "INVALID_NOTIFICATION_INTERVAL", True),
+         "is_valid_multiplicity": ("multiplicity", "INVALID_MULTIPLICITY", True)}
+
+
+def check_validation(ctx, P, X, sv, if4):
     v = if4.methods["validate_subscribe_data_consumer"]
-    flv = ctx.flows.get(v)
-    table = {"is_valid_its_aid": "INVALID_ITSA_ID", "is_valid_data_object_type": "INVALID_DATA_OBJECT_TYPE", "is_valid_priority": "INVALID_PRIORITY",
-             "is_valid_order": "INVALID_ORDER", "is_valid_filter": "INVALID_FILTER", "is_valid_notify_time": "INVALID_NOTIFICATION_INTERVAL",
-             "is_valid_multiplicity": "INVALID_MULTIPLICITY"}
+    rp = v.params[1]
+    respc = P.cls(f"{LDM}.ldm_classes.SubscribeDataObjectsResp")
+    resc = P.cls(f"{LDM}.ldm_classes.SubscribeDataobjectsResult")
+    stable = rp not in FunctionFlow.assigned_names(v.node.body)
+    paths = [p for p in X.explore(v.node.body) if p.end[0] != "raise"]
+
+    def vcall(val):
+        field = TABLE[val][0]
+        c = parse(f"self.{val}({rp}.{field})")
+        if not calls_to(P, v, c, if4.methods[val]):
+            raise AnalysisError(f"C14: validator {val} no longer resolves")
+        return c
+
+    def code_of(p):
+        e = p.end[2]
+        if isinstance(e, ast.Call) and calls_to(P, v, e, respc):
+            bd = bind(respc, e) or {}
+            r = P.resolve_expr_entity(v.module, bd.get("result")) if bd.get("result") is not None else None
+            if isinstance(r, tuple) and r[0] == "enum" and r[1] is resc:
+                return r[2], same(bd.get("application_id"), f"{rp}.application_id")
+        return None, False
+
+    accepts = [p for p in paths if p.end[0] == "fall" or (p.end[0] == "return" and (p.end[2] is None or (isinstance(p.end[2], ast.Constant) and p.end[2].value is None)))]
+    if not accepts:
+        raise AnalysisError("C14: validate_subscribe_data_consumer has no accepting path")
     seen = {}
-    for k, s_, st_ in flv.exits:
-        if k != "return":
-            continue
-        if isinstance(s_.value, ast.Constant) and s_.value.value is None:
-            conds = {norm(pretty(f.key)): f.pol for f in st_.facts if f.kind == "cond"}
-            for val in table:
-                passed = any(val + "(" in kk and ((vv is True and not kk.startswith("not")) or (vv is False and "isnotNoneandnot" in kk)
-                                                  or (vv is False and kk.startswith("not"))) for kk, vv in conds.items()) or \
-                    any(val + "(" in kk for kk in conds)
-                ctx.ob("C14.validation", v.short(), f"accept-needs:{val}", passed,
-                       f"a request is accepted only after {val} was evaluated", f"{v.module.rel}:{s_.lineno}")
-            continue
-        if not isinstance(s_.value, ast.Call):
-            continue
-        code = [unparse(a) for a in s_.value.args if "SubscribeDataobjectsResult." in unparse(a)]
-        par = flv.parent.get(id(s_))
-        test = norm(unparse(par.test)) if isinstance(par, ast.If) else ""
-        for val, want in table.items():
-            if val + "(" in test:
-                seen[val] = code[0].split(".")[-1] if code else None
-                ctx.ob("C14.validation", v.short(), f"code:{val}", seen[val] == want and (test.startswith("not") or ("notself." + val) in test),
-                       f"a request failing {val} is refused with {seen[val]} (must be {want})", f"{v.module.rel}:{s_.lineno}")
-    ctx.ob("C14.validation", v.short(), "all-seven", set(seen) == set(table), f"validators consulted: {sorted(seen)}", v.loc)
+    for val, (field, code, optional) in TABLE.items():
+        c = vcall(val)
+        bypass = parse(f"{rp}.{field} is not None and not {unparse(c)}")
+        for p in accepts:
+            A = p.atoms()
+            passed = implied(A, c, True) or (optional and implied(A, bypass, False))
+            line = p.end[1].lineno if p.end[1] is not None else v.node.lineno
+            ctx.ob("C14.validation", v.short(), f"accept-needs:{val}", passed and stable,
+                   f"a request is accepted only after {val} held" + (" (or the optional field is absent)" if optional else ""), f"{v.module.rel}:{line}")
+        refusing = [p for p in paths if p not in accepts and implied(p.atoms(), c, False)]
+        for p in refusing:
+            got, app = code_of(p)
+            seen[val] = got
+            ctx.ob("C14.validation", v.short(), f"code:{val}", got == code and app,
+                   f"a request failing {val} is refused with {got} (must be {code}), naming the applicant", f"{v.module.rel}:{p.end[1].lineno}")
+        if not refusing:
+            ctx.ob("C14.validation", v.short(), f"code:{val}", False, f"no path refuses a request because {val} failed", v.loc)
+    other = [p for p in paths if p not in accepts and not any(implied(p.atoms(), vcall(val), False) for val in TABLE)]
+    ctx.ob("C14.validation", v.short(), "all-seven", set(seen) == set(TABLE) and not other,
+           f"validators whose failure refuses the request: {sorted(seen)}" + (f"; {len(other)} refusing path(s) not caused by a failed validator" if other else ""), v.loc)
+    # subscribe: storing only after validation returned None, with the validated request
     sub = if4.methods["subscribe_data_consumer"]
-    fls = ctx.flows.get(sub)
-    for x in P.calls_in(sub):
-        if isinstance(x.func, ast.Attribute) and x.func.attr == "store_subscription_info":
-            conds = {norm(pretty(f.xkey)): f.pol for f in fls.state_at(x).facts if f.kind == "cond"}
-            ok = conds.get("self.validate_subscribe_data_consumer(subscribe_data_consumer)isNone") is True
-            ctx.ob("C14.validation", sub.short(), "store-after-validation", ok, "a subscription is stored only when validation returned None",
-                   f"{sub.module.rel}:{x.lineno}")
-    # validators: ranges
-    for name, frag in (("is_valid_priority", "0<=priority<=255"), ("is_valid_multiplicity", "0<=multiplicity<=255"),
-                       ("is_valid_notify_time", "0<=notify_time.timestamp_its<=4398046511103"),
-                       ("is_valid_its_aid", "application_idinself.ldm_service.get_data_consumer_its_aid()"),
-                       ("is_valid_data_object_type", "inDATA_OBJECT_TYPE_ID")):
+    srp, scb = sub.params[1], sub.params[2]
+    store = if4.methods["store_subscription_info"]
+    ok, n = not ({srp, scb} & FunctionFlow.assigned_names(sub.node.body)), 0
+    valid = parse(f"self.validate_subscribe_data_consumer({srp})")
+    if not calls_to(P, sub, valid, v):
+        raise AnalysisError("C14: subscribe_data_consumer no longer validates through validate_subscribe_data_consumer")
+    for p in X.explore(sub.node.body):
+        for i, xc in p.calls():
+            if calls_to(P, sub, xc, store):
+                n += 1
+                bd = bind(store, xc) or {}
+                ok = ok and implied(p.atoms(i), ast.Compare(left=valid, ops=[ast.Is()], comparators=[ast.Constant(None)]), True) and \
+                    is_name(bd.get(store.params[1]), srp) and is_name(bd.get(store.params[2]), scb)
+    ctx.ob("C14.validation", sub.short(), "store-after-validation", ok and n > 0, "a subscription is stored only when validation returned None",
+           sub.loc)
+    # store_subscription_info hands request and callback to the service unchanged
+    new = sv.methods["store_new_subscription_petition"]
+    ok, n = True, 0
+    for p in X.explore(store.node.body):
+        if p.end[0] == "raise":
+            continue
+        n += 1
+        e = p.end[2]
+        bd = bind(new, e) if isinstance(e, ast.Call) and calls_to(P, store, e, new) else None
+        ok = ok and bd is not None and is_name(bd.get(new.params[1]), store.params[1]) and is_name(bd.get(new.params[2]), store.params[2])
+    ctx.ob("C14.validation", store.short(), "stores-validated-request", ok and n > 0,
+           "the validated request and its callback are what the service stores", store.loc)
+    # the validators themselves
+    reg = sv.methods["get_data_consumer_its_aid"]
+    ranges = {"is_valid_priority": (0, 255, ""), "is_valid_multiplicity": (0, 255, ""), "is_valid_notify_time": (0, 4398046511103, ".timestamp_its")}
+    for name, (lo, hi, attr) in ranges.items():
         m = if4.methods[name]
-        ctx.ob("C14.validation", m.short(), "predicate", frag in norm(unparse(m.node)), f"{name}: `{frag}`", m.loc)
-    ctx.floor("C14.validation", 20)
-    # ---- unsubscribe interface
+        p_ = m.params[1]
+        want = sem.want(f"{p_} is None or {lo} <= {p_}{attr} <= {hi}")
+        rets = [q for q in X.explore(m.node.body) if q.end[0] != "raise"]
+        ok = bool(rets) and all(q.end[0] == "return" and q.end[2] is not None and not q.atoms() and sem.atoms(q.end[2], True) == want for q in rets)
+        ctx.ob("C14.validation", m.short(), "predicate", ok, f"{name}: absent or {lo} <= value{attr} <= {hi}", m.loc)
+    m = if4.methods["is_valid_its_aid"]
+    p_ = m.params[1]
+    rets = [q for q in X.explore(m.node.body) if q.end[0] != "raise"]
+    ok = bool(rets)
+    for q in rets:
+        e = q.end[2]
+        ok = ok and not q.atoms() and isinstance(e, ast.Compare) and len(e.ops) == 1 and isinstance(e.ops[0], ast.In) and is_name(e.left, p_) and \
+            same(e.comparators[0], "self.ldm_service.get_data_consumer_its_aid()") and calls_to(P, m, e.comparators[0], reg)
+    ctx.ob("C14.validation", m.short(), "predicate", ok, "is_valid_its_aid: the applicant is a registered data CONSUMER", m.loc)
+    m = if4.methods["is_valid_data_object_type"]
+    p_ = m.params[1]
+    rets = [q for q in X.explore(m.node.body) if q.end[0] != "raise"]
+    ok = bool(rets)
+    for q in rets:
+        e = q.end[2]
+        g = e.args[0] if isinstance(e, ast.Call) and dotted(e.func) == "all" and len(e.args) == 1 and not e.keywords else None
+        good = isinstance(g, (ast.GeneratorExp, ast.ListComp)) and len(g.generators) == 1 and not g.generators[0].ifs and \
+            isinstance(g.generators[0].target, ast.Name) and is_name(g.generators[0].iter, p_)
+        if good:
+            r = P.resolve_name(m.module, "DATA_OBJECT_TYPE_ID")
+            good = sem.atoms(g.elt, True) == sem.want(f"{g.generators[0].target.id} in DATA_OBJECT_TYPE_ID") and isinstance(r, tuple) and \
+                r[0] == "const" and r[1].name.endswith("ldm_constants")
+        ok = ok and good and not q.atoms()
+    ctx.ob("C14.validation", m.short(), "predicate", ok, "is_valid_data_object_type: every requested type is a key of DATA_OBJECT_TYPE_ID", m.loc)
+
+
+# ---------------------------------------------------------------- unsubscribe interface
+def check_unsubscribe_if(ctx, P, X, sv, if4):
     un = if4.methods["unsubscribe_data_consumer"]
-    flu = ctx.flows.get(un)
-    for x in P.calls_in(un):
-        if isinstance(x.func, ast.Attribute) and x.func.attr == "delete_subscription":
-            conds = {norm(pretty(f.xkey)): f.pol for f in flu.state_at(x).facts if f.kind == "cond"}
-            ok = conds.get("unsubscribe_data_consumer.application_idinself.ldm_service.get_data_consumer_its_aid()") is True
-            ctx.ob("C14.unsubscribe", un.short(), "registered-consumer", ok, "only a registered consumer can unsubscribe", f"{un.module.rel}:{x.lineno}")
-            ctx.ob("C14.unsubscribe", un.short(), "by-id", norm(unparse(x.args[0])) == "unsubscribe_data_consumer.subscription_id",
-                   "the subscription removed is the one named by the request", f"{un.module.rel}:{x.lineno}")
-    # ---- reactive trigger
+    rp = un.params[1]
+    ds = sv.methods["delete_subscription"]
+    reg = sv.methods["get_data_consumer_its_aid"]
+    REG = parse("self.ldm_service.get_data_consumer_its_aid()")
+    if not calls_to(P, un, REG, reg):
+        raise AnalysisError("C14: InterfaceLDM4 no longer reaches LDMService.get_data_consumer_its_aid")
+    registered = parse(f"{rp}.application_id in {unparse(REG)}")
+    stable = rp not in FunctionFlow.assigned_names(un.node.body)
+    n, r_ok, id_ok = 0, stable, stable
+    for p in X.explore(un.node.body):
+        for i, xc in p.calls():
+            if calls_to(P, un, xc, ds):
+                n += 1
+                bd = bind(ds, xc) or {}
+                r_ok = r_ok and implied(p.atoms(i), registered, True)
+                id_ok = id_ok and same(bd.get(ds.params[1]), f"{rp}.subscription_id")
+    if not n:
+        raise AnalysisError("C14: unsubscribe_data_consumer no longer calls delete_subscription")
+    ctx.ob("C14.unsubscribe", un.short(), "registered-consumer", r_ok, "only a registered consumer can unsubscribe", un.loc)
+    ctx.ob("C14.unsubscribe", un.short(), "by-id", id_ok, "the subscription removed is the one named by the request", un.loc)
+
+
+# ---------------------------------------------------------------- reactive trigger
+def check_reactive(ctx, P, X):
     ra = P.func(f"{LDM}.ldm_service_reactive.LDMServiceReactive.add_provider_data")
-    fr = ctx.flows.get(ra)
-    at = [x for x in P.calls_in(ra) if isinstance(x.func, ast.Attribute) and x.func.attr == "attend_subscriptions"]
-    ok = bool(at) and any(f.kind == "call" and "super().add_provider_data(data)" in f.key for f in fr.state_at(at[0]).facts)
-    ctx.ob("C14.reactive", ra.short(), "attend-after-insert", ok, "subscriptions are attended after the new object was inserted", ra.loc)
+    dp = ra.params[1]
+    att = P.cls(SV).methods["attend_subscriptions"]
+    base = P.cls(SV).methods["add_provider_data"]
+    paths = X.explore(ra.node.body)
+    n, ok, ret = 0, dp not in FunctionFlow.assigned_names(ra.node.body), True
+
+    def is_insert(xc) -> bool:
+        return calls_to(P, ra, xc, base) and isinstance(xc.func, ast.Attribute) and isinstance(xc.func.value, ast.Call) and \
+            dotted(xc.func.value.func) == "super" and len(xc.args) == 1 and not xc.keywords and is_name(xc.args[0], dp)
+
+    for p in paths:
+        if p.end[0] == "raise":
+            continue
+        ins = [i for i, xc in p.calls() if is_insert(xc)]
+        ret = ret and len(ins) == 1 and p.end[0] == "return" and isinstance(p.end[2], ast.Call) and is_insert(p.end[2])
+        for i, xc in p.calls():
+            if calls_to(P, ra, xc, att):
+                n += 1
+                ok = ok and bool(ins) and ins[0] < i
+    ctx.ob("C14.reactive", ra.short(), "attend-after-insert", ok and n > 0, "subscriptions are attended after the new object was inserted", ra.loc)
+    ctx.ob("C14.reactive", ra.short(), "insert-once-and-report", ret,
+           "every path inserts the object exactly once through the base service and returns its index", ra.loc)
